@@ -14,6 +14,10 @@ def c18_4(rep):
     from . import c10
     ix = common.index(rep)
     common.guarded(rep, "C18.4", c10.c10_2, rep, ix, R="C18.4")
+    c18_5(rep, ix)
+
+
+def c18_5(rep, ix):
     R = "C18.5"
     rep.rule(R, "in the handwritten semantic modules, token positions and raw stream objects (line, column, start, stop, tokenIndex, source intervals) flow only into exception messages", floor=4)
     # layout tokens can also be seen through the generic listener hooks (every token / every rule) and through token-type constants
